@@ -511,6 +511,14 @@ fn draw_cfg(tape: &mut Tape, tier: Tier) -> (Cfg, u64, bool) {
         lossy_nodes.insert(k);
     }
     let hash_salt = tape.choose(1 << 16);
+    // about 1 run in 48 follows a directed schedule skeleton (see `skeleton_repair_hole`)
+    // instead of the random scheduler; roles are permuted by the tape
+    let scenario = tape.choose(48) == 47 || std::env::var("W6_SCENARIO").is_ok();
+    let (n_nodes, n_replicas, budget, quorum, stream_max_len, async_fault_pm, max_latency_ms) = if scenario {
+        (3, 3, 0, 2, 1000, 0, 0)
+    } else {
+        (n_nodes, n_replicas, budget, quorum, stream_max_len, async_fault_pm, max_latency_ms)
+    };
     // swarm: each scheduler-level fault kind is on in about half of the runs
     let kinds = if fault_free {
         0
@@ -533,10 +541,11 @@ fn draw_cfg(tape: &mut Tape, tier: Tier) -> (Cfg, u64, bool) {
             async_fault_pm,
             sync_fault_pm,
             max_latency_ms,
-            lossy_nodes,
+            lossy_nodes: if scenario { BTreeSet::new() } else { lossy_nodes },
             over_budget,
             hash_salt,
             kinds,
+            skeleton: scenario,
         },
         steps,
         fault_free,
@@ -760,6 +769,77 @@ async fn chaos(s: &mut Sched, ctx: &mut Ctx, steps: u64, fault_free: bool) {
     }
 }
 
+/// Directed schedule skeleton (3 nodes, 3 replicas, roles permuted by the tape): a node misses
+/// height h but receives the only copy of a failed publish at h+1; the next leader cannot reach
+/// one of the nodes that hold h and repairs; a third leader cannot reach the node with the hole.
+/// Every step is an ordinary fault of the random scheduler (lost write, partition, release);
+/// the skeleton only makes their conjunction likely.
+async fn skeleton_repair_hole(s: &mut Sched, ctx: &mut Ctx) {
+    let (np, rp) = {
+        let mut g = s.shared.lock();
+        let mut np = [0usize, 1, 2];
+        let mut rp = [0usize, 1, 2];
+        g.tape.shuffle(&mut np);
+        g.tape.shuffle(&mut rp);
+        g.ev(format!("skeleton repair_hole nodes={np:?} replicas={rp:?}"));
+        (np, rp)
+    };
+    let (na, nb, nc) = (np[0], np[1], np[2]);
+    let (r0, r1, r2) = (rp[0], rp[1], rp[2]);
+    async fn drive(
+        s: &mut Sched,
+        ctx: &mut Ctx,
+        r: usize,
+        cmd: Cmd,
+        fate: &dyn Fn(usize, u32) -> Fate,
+    ) {
+        s.send(r, cmd);
+        for _ in 0..6000 {
+            s.advance(5).await;
+            for wid in s.parked_writers() {
+                let (node, h) = {
+                    let g = s.shared.lock();
+                    (g.writers[wid].node, g.writers[wid].height)
+                };
+                s.deliver(wid, fate(node, h));
+            }
+            flush(&s.shared, ctx);
+            if s.idle(r) || ctx.failed() {
+                return;
+            }
+        }
+        panic!("skeleton: replica r{r} did not finish its command");
+    }
+    let plan = || Cmd::Round(RoundPlan { pause_ms: 0, crash_before_commit: false });
+    for r in 0..3 {
+        s.start_replica(r);
+    }
+    s.advance(1).await;
+    // 1. r0 leads, height 1 reaches nodes a,b only
+    drive(s, ctx, r0, plan(), &|n, _| if n == nc { Fate::Lost } else { Fate::Deliver }).await;
+    // 2. r0 publishes X at height 2, only node c gets it: the publish fails, r0 releases
+    drive(s, ctx, r0, plan(), &|n, _| if n == nc { Fate::Deliver } else { Fate::Lost }).await;
+    // 3. r1 (cannot reach node a) leads and reconciles from height 1; its write of X to node b
+    //    is lost
+    s.shared.lock().partitions.insert((r1, na));
+    drive(s, ctx, r1, plan(), &|n, h| {
+        if h == 2 && n == nb { Fate::Lost } else { Fate::Deliver }
+    })
+    .await;
+    drive(s, ctx, r1, Cmd::Release, &|_, _| Fate::Deliver).await;
+    // 4. r2 (has height 1 by p2p, cannot reach node c) leads
+    {
+        let mut g = s.shared.lock();
+        g.partitions.insert((r2, nc));
+        if g.dbs[r2].height() == 0 && g.dbs[r0].height() >= 1 {
+            let b = g.dbs[r0].blocks[0].1.clone();
+            g.commit_block(r2, b, "p2p");
+        }
+    }
+    drive(s, ctx, r2, plan(), &|_, _| Fate::Deliver).await;
+    flush(&s.shared, ctx);
+}
+
 /// Faults stop: partitions heal, dead replicas restart, every write is delivered. Progress
 /// (a new height committed by someone) is recorded as a probe, not as an oracle of C25.
 async fn calm(s: &mut Sched, ctx: &mut Ctx) {
@@ -927,6 +1007,7 @@ impl simkit::World for HaWorld {
         let tape = std::mem::replace(&mut ctx.tape, Tape::replay(Vec::new()));
         let n_replicas = cfg.n_replicas;
         let n_nodes = cfg.n_nodes;
+        let skeleton = cfg.skeleton;
         let hash_salt = cfg.hash_salt;
         let shared = Arc::new(Shared {
             m: Mutex::new(Inner {
@@ -957,6 +1038,7 @@ impl simkit::World for HaWorld {
                 producer_of: BTreeMap::new(),
                 stream_view: (0..n_nodes).map(|_| BTreeSet::new()).collect(),
                 trim_outran_replica: false,
+                unordered_append: false,
                 busy: BTreeSet::new(),
             }),
             cv: Condvar::new(),
@@ -987,7 +1069,11 @@ impl simkit::World for HaWorld {
                     t0,
                 });
                 let s = sched.as_mut().unwrap();
-                chaos(s, ctx, steps, fault_free).await;
+                if skeleton {
+                    skeleton_repair_hole(s, ctx).await;
+                } else {
+                    chaos(s, ctx, steps, fault_free).await;
+                }
                 flush(&shared, ctx);
                 if !ctx.failed() {
                     calm(s, ctx).await;
@@ -1047,7 +1133,7 @@ impl simkit::World for HaWorld {
     }
     fn default_runs(&self, _prop: &str, tier: Tier) -> u64 {
         match tier {
-            Tier::Quick => 800,
+            Tier::Quick => 700,
             Tier::Thorough => 20_000,
         }
     }
